@@ -468,6 +468,31 @@ fn report_pair(rep: &mut Report, c: &Case, class: &'static str, detail: String, 
             }
         }
     }
+    if class == "says-assignable-but-exact-value-is-outside" && cause.is_none() {
+        // a counterexample that needs two or more entries supplied by the left side's index signature:
+        // every version of the witness that keeps only one of them is a value of T
+        let dm = defs_map(&small.defs);
+        let top = match &small.s.kind {
+            RuntypeKind::Ref(n) => dm.get(n).cloned().unwrap_or(small.s.clone()),
+            _ => small.s.clone(),
+        };
+        if let (RuntypeKind::Object { vs, indexed_properties: Some(_) }, Ok((Some(Value::Obj(w)), _, _))) = (&top.kind, model_witness(&small, cap)) {
+            let idx_keys: Vec<&String> = w.keys().filter(|k| !vs.contains_key(*k)).collect();
+            if idx_keys.len() >= 2
+                && idx_keys.iter().all(|keep| {
+                    let mut o = w.clone();
+                    for k in &idx_keys {
+                        if k != keep {
+                            o.remove(*k);
+                        }
+                    }
+                    rm::rt_open(&small.t, &dm, &Value::Obj(o)).unwrap_or(false)
+                })
+            {
+                cause = Some("needs-several-index-signature-entries");
+            }
+        }
+    }
     if class == "says-not-assignable-but-no-exact-value-is-outside" {
         // a right-hand intersection every member of which the engine accepts on its own
         let dm = defs_map(&small.defs);
@@ -613,7 +638,7 @@ fn c05(args: &Args, rep: &mut Report, w: &Watch) {
         let mut rng = Rng::new(args.seed, &format!("c05|{}|{}", args.shard, i));
         let ndefs = if rng.chance(1, 2) { 1 + rng.below(3) } else { 0 };
         let (defs, s, t0) = {
-            let mut g = RandGen { rng: &mut rng, names: vec![], allow_any: false };
+            let mut g = RandGen { rng: &mut rng, names: vec![], allow_any: false, allow_tpl: false };
             let defs = if ndefs > 0 { g.defs(ndefs) } else { vec![] };
             let bs = 2 + g.rng.below(6);
             let s = g.ty(bs, true);
@@ -654,6 +679,24 @@ fn c05(args: &Args, rep: &mut Report, w: &Watch) {
                     }
                 };
                 let s_parts: Vec<Runtype> = slots.iter().map(|p| subset(&mut rng, p, 2)).collect();
+                if as_object && rng.chance(1, 3) {
+                    // the left side covers its keys through an index signature; the bricks name them
+                    let pool = slots[0];
+                    let value = subset(&mut rng, pool, 2);
+                    let s_ty = tgen::obj(vec![], Some((Runtype::string(), value, false)));
+                    let nbricks = 2 + rng.below(2);
+                    let bricks: Vec<Runtype> = (0..nbricks)
+                        .map(|_| {
+                            let nkeys = 1 + rng.below(2);
+                            let props: Vec<(&str, Runtype, bool)> = (0..nkeys).map(|i| (keys[i], subset(&mut rng, pool, 1), true)).collect();
+                            let index = if rng.chance(1, 3) { Some((Runtype::string(), subset(&mut rng, pool, 1), false)) } else { None };
+                            tgen::obj(props, index)
+                        })
+                        .collect();
+                    let c = Case { s: s_ty, t: tgen::raw_any_of(bricks), defs: vec![], t_first: rng.chance(1, 2) };
+                    c05_one(rep, w, &c, cap, "cover-index-signature");
+                    continue;
+                }
                 let s_ty = build(&mut rng, s_parts, true);
                 let nbricks = 2 + rng.below(3);
                 let bricks: Vec<Runtype> = (0..nbricks)
@@ -928,7 +971,7 @@ fn c06_layer2(args: &Args, rep: &mut Report, w: &Watch) {
         let mut rng = Rng::new(args.seed, &format!("c06-l2|{}|{}", args.shard, i));
         let ndefs = if rng.chance(1, 3) { 1 + rng.below(2) } else { 0 };
         let (defs, a, b) = {
-            let mut g = RandGen { rng: &mut rng, names: vec![], allow_any: true };
+            let mut g = RandGen { rng: &mut rng, names: vec![], allow_any: true, allow_tpl: false };
             let defs = if ndefs > 0 { g.defs(ndefs) } else { vec![] };
             let ba = 1 + g.rng.below(6);
             let a = g.ty(ba, true);
@@ -1320,7 +1363,8 @@ fn c07(args: &Args, rep: &mut Report, w: &Watch) {
     for i in 0..n {
         let mut rng = Rng::new(args.seed, &format!("c07|{}|{}", args.shard, i));
         let ndefs = if rng.chance(2, 5) { 1 + rng.below(3) } else { 0 };
-        let mut g = RandGen { rng: &mut rng, names: vec![], allow_any: false };
+        let rng_any = rng.chance(1, 6);
+        let mut g = RandGen { rng: &mut rng, names: vec![], allow_any: rng_any, allow_tpl: true };
         let defs = if ndefs > 0 { g.defs(ndefs) } else { vec![] };
         let ba = 2 + g.rng.below(6);
         let a = if !defs.is_empty() && g.rng.chance(1, 3) { Runtype::ref_(defs[0].name.clone()) } else { g.ty(ba, true) };
